@@ -201,6 +201,11 @@ func c11GenProgram(rt *rapid.T) []byte {
 	var code []byte
 	n := rapid.IntRange(5, 120).Draw(rt, "ninstr")
 	fl := lsFlavour{irq: 3, halt: 1, flow: 4, mem: 5, raw: 3}
+	if rapid.Bool().Draw(rt, "ram-first") {
+		// like most real cartridges' start-up code: open cartridge RAM, leave something in it, look at it
+		a := 0xa000 + rapid.IntRange(0, 0x1fff).Draw(rt, "ramaddr")
+		code = append(code, 0x3e, 0x0a, 0xea, 0x00, 0x00, 0x3e, rapid.Byte().Draw(rt, "ramval"), 0xea, byte(a), byte(a>>8), 0xfa, 0x00, 0xa0, 0x47)
+	}
 	for i := 0; i < n; i++ {
 		switch rapid.IntRange(0, 9).Draw(rt, "kind") {
 		case 0, 1: // write a byte to an interesting address
